@@ -2,8 +2,10 @@ package main
 
 import (
 	"go/ast"
+	"go/constant"
 	"go/parser"
 	"go/token"
+	"go/types"
 	"path/filepath"
 	"strings"
 
@@ -14,7 +16,7 @@ func checkC15(r *Report) {
 	p := loadResolve("", true)
 	tab := loadTotality()
 	pathTrusted(r)
-	r.Explain = "Only the termination and ordering clauses of 'the effective POM equals Maven's' are decided. C15.a INTERP-TERMINATES: the recursion of placeholder substitution is guarded by a visited map on every cycle (recursive call dominated by a lookup-and-exit and by an update of the same map, which is passed along), and its loop makes progress: the string carried round the loop is re-sliced past an index returned by strings.Index that was tested non-negative. C15.b LOOP-BOUNDS: dependency-management imports and parent chains are bounded by MaxImports and MaxMavenParent through monotone counters. C15.c CALL-ORDER: in both implementations of the pipeline (APIClient.mavenRequirements/fetchMavenParents, type-checked; examples/go/maven_parse_resolve main/mergeParents, syntax only because that module does not build offline) every MergeParent is preceded in its iteration by MergeProfiles on the project merged in, Interpolate runs after the parent loop, and ProcessDependencies runs after the parents were merged and interpolated. Not decided: equality with Maven's model builder on any input."
+	r.Explain = "C15.d DECLARED-WINS: where ProcessDependencies injects dependency management, a managed value is stored into a field of the declared dependency only on the side of a test where that same field is empty. Only the termination and ordering clauses of 'the effective POM equals Maven's' are decided. C15.a INTERP-TERMINATES: the recursion of placeholder substitution is guarded by a visited map on every cycle (recursive call dominated by a lookup-and-exit and by an update of the same map, which is passed along), and its loop makes progress: the string carried round the loop is re-sliced past an index returned by strings.Index that was tested non-negative. C15.b LOOP-BOUNDS: dependency-management imports and parent chains are bounded by MaxImports and MaxMavenParent through monotone counters. C15.c CALL-ORDER: in both implementations of the pipeline (APIClient.mavenRequirements/fetchMavenParents, type-checked; examples/go/maven_parse_resolve main/mergeParents, syntax only because that module does not build offline) every MergeParent is preceded in its iteration by MergeProfiles on the project merged in, Interpolate runs after the parent loop, and ProcessDependencies runs after the parents were merged and interpolated. Not decided: equality with Maven's model builder on any input."
 	r.Assume = []string{"the example program is analysed on its untyped syntax tree: calls are matched by selector name"}
 	// a. recursion + progress
 	sub := newReport("C15", r.Tier)
@@ -53,6 +55,193 @@ func checkC15(r *Report) {
 	// c. typed call order
 	callOrderTyped(r, p)
 	callOrderExample(r)
+	declaredWinsRule(r, p, "C15.d/DECLARED-WINS")
+}
+
+// declaredWinsRule: when ProcessDependencies injects dependency management
+// into a declared dependency, a managed value is copied into a field of the
+// declared dependency only where that field is empty (Maven's
+// DefaultDependencyManagementInjector: the declared value wins). Every store
+// into a field of the declared dependency whose value comes from the managed
+// entry must sit on the "field is empty" side of a test of that same field.
+func declaredWinsRule(r *Report, p *Prog, rule string) {
+	f := p.lookupFn("(*maven.Project).ProcessDependencies")
+	if f == nil {
+		r.bad(rule, "(*maven.Project).ProcessDependencies", "", "function not found: anchor lost")
+		return
+	}
+	// the managed entry: the cell that receives the value of a comma-ok map lookup
+	var dm []*ssa.Alloc
+	for _, b := range f.Blocks {
+		for _, in := range b.Instrs {
+			st, ok := in.(*ssa.Store)
+			if !ok {
+				continue
+			}
+			ex, ok := st.Val.(*ssa.Extract)
+			if !ok || ex.Index != 0 {
+				continue
+			}
+			lk, ok := ex.Tuple.(*ssa.Lookup)
+			if !ok || !lk.CommaOk || !strings.HasSuffix(lk.Type().(*types.Tuple).At(0).Type().String(), "maven.Dependency") {
+				continue
+			}
+			if al, ok := st.Addr.(*ssa.Alloc); ok {
+				dm = append(dm, al)
+			}
+		}
+	}
+	if len(dm) == 0 {
+		r.bad(rule, fnKey(f)+": managed entry", p.pos(f.Pos()), "no 'dm, ok := depManagement[key]' lookup of a maven.Dependency found: anchor lost")
+		return
+	}
+	fromDM := func(v ssa.Value) bool {
+		seen := map[ssa.Value]bool{}
+		var walk func(x ssa.Value, d int) bool
+		walk = func(x ssa.Value, d int) bool {
+			if x == nil || seen[x] || d > 12 {
+				return false
+			}
+			seen[x] = true
+			for _, a := range dm {
+				if x == a {
+					return true
+				}
+			}
+			if _, ok := x.(*ssa.Alloc); ok {
+				return false
+			}
+			if ins, ok := x.(ssa.Instruction); ok {
+				for _, op := range ins.Operands(nil) {
+					if *op != nil && walk(*op, d+1) {
+						return true
+					}
+				}
+			}
+			return false
+		}
+		return walk(v, 0)
+	}
+	// emptiness test of field fld of cell al; returns the successor index on which the field is empty
+	emptySide := func(cond ssa.Value, al *ssa.Alloc, fld int) int {
+		neg := false
+		if u, ok := cond.(*ssa.UnOp); ok && u.Op == token.NOT {
+			cond, neg = u.X, true
+		}
+		bo, ok := cond.(*ssa.BinOp)
+		if !ok {
+			return -1
+		}
+		isField := func(v ssa.Value) bool {
+			if c, ok := v.(*ssa.Call); ok {
+				if bi, ok := c.Call.Value.(*ssa.Builtin); ok && bi.Name() == "len" {
+					v = c.Call.Args[0]
+				}
+			}
+			ld, ok := v.(*ssa.UnOp)
+			if !ok || ld.Op != token.MUL {
+				return false
+			}
+			fa, ok := ld.X.(*ssa.FieldAddr)
+			return ok && fa.X == al && fa.Field == fld
+		}
+		isEmptyConst := func(v ssa.Value) bool {
+			c, ok := v.(*ssa.Const)
+			if !ok {
+				return false
+			}
+			if c.Value == nil {
+				return true // nil
+			}
+			switch c.Value.Kind() {
+			case constant.String:
+				return constant.StringVal(c.Value) == ""
+			case constant.Int:
+				n, _ := constant.Int64Val(c.Value)
+				return n == 0
+			}
+			return false
+		}
+		intConst := func(v ssa.Value) (int64, bool) {
+			c, ok := v.(*ssa.Const)
+			if !ok || c.Value == nil || c.Value.Kind() != constant.Int {
+				return 0, false
+			}
+			return constant.Int64Val(c.Value)
+		}
+		side := -1
+		switch {
+		case (bo.Op == token.EQL || bo.Op == token.NEQ) && (isField(bo.X) && isEmptyConst(bo.Y) || isField(bo.Y) && isEmptyConst(bo.X)):
+			side = 0
+			if bo.Op == token.NEQ {
+				side = 1
+			}
+		case isField(bo.X): // len(f) < 1, len(f) <= 0 : empty on true; len(f) > 0, len(f) >= 1 : empty on false
+			k, ok := intConst(bo.Y)
+			switch {
+			case ok && (bo.Op == token.LSS && k == 1 || bo.Op == token.LEQ && k == 0):
+				side = 0
+			case ok && (bo.Op == token.GTR && k == 0 || bo.Op == token.GEQ && k == 1):
+				side = 1
+			}
+		}
+		if side < 0 {
+			return -1
+		}
+		if neg {
+			side = 1 - side
+		}
+		return side
+	}
+	n := 0
+	for _, b := range f.Blocks {
+		for _, in := range b.Instrs {
+			st, ok := in.(*ssa.Store)
+			if !ok {
+				continue
+			}
+			fa, ok := st.Addr.(*ssa.FieldAddr)
+			if !ok {
+				continue
+			}
+			al, ok := fa.X.(*ssa.Alloc)
+			if !ok || !strings.HasSuffix(al.Type().String(), "maven.Dependency") || !fromDM(st.Val) {
+				continue
+			}
+			isDM := false
+			for _, a := range dm {
+				if a == al {
+					isDM = true
+				}
+			}
+			if isDM {
+				continue
+			}
+			n++
+			fname := al.Type().Underlying().(*types.Pointer).Elem().Underlying().(*types.Struct).Field(fa.Field).Name()
+			key := fnKey(f) + ": managed value copied into declared " + fname
+			guarded := false
+			for _, g := range f.Blocks {
+				ifi, ok := g.Instrs[len(g.Instrs)-1].(*ssa.If)
+				if !ok {
+					continue
+				}
+				side := emptySide(ifi.Cond, al, fa.Field)
+				if side < 0 {
+					continue
+				}
+				if guardedBy(g, g.Succs[1-side], b) {
+					guarded = true
+				}
+			}
+			if guarded {
+				r.ok(rule, key, p.pos(st.Pos()), "only on the side of a test where the declared "+fname+" is empty")
+			} else {
+				r.bad(rule, key, p.pos(st.Pos()), "a value from dependency management is written into the declared dependency's "+fname+" without testing that the declared one is empty: Maven keeps what the dependency declares and only fills gaps")
+			}
+		}
+	}
+	r.floor(rule, "fields of a declared dependency filled from dependency management", n, 3)
 }
 
 // interpProgress: the loop of interpolating strictly shortens its string.
